@@ -12,7 +12,16 @@ func ptraceReadStr(pid int, addr uintptr, buff []byte) {
 	syscall.PtracePeekData(pid, addr, buff)
 }
 
-func processVMReadv(pid int, localIov, remoteIov []unix.Iovec,
+// remoteIovec is struct iovec for the other process: base is an address in the tracee's
+// address space, a number the tracee chooses. It must not be typed as a Go pointer (a Go
+// tracee's strings live at 0xc000......, inside the tracer's own heap arenas; the garbage
+// collector aborts the process when it finds such a value in a pointer slot).
+type remoteIovec struct {
+	base uintptr
+	len  uintptr
+}
+
+func processVMReadv(pid int, localIov []unix.Iovec, remoteIov []remoteIovec,
 	flags uintptr) (r1, r2 uintptr, err syscall.Errno) {
 	return syscall.Syscall6(unix.SYS_PROCESS_VM_READV, uintptr(pid),
 		uintptr(unsafe.Pointer(&localIov[0])), uintptr(len(localIov)),
@@ -23,7 +32,7 @@ func processVMReadv(pid int, localIov, remoteIov []unix.Iovec,
 func vmRead(pid int, addr uintptr, buff []byte) (int, error) {
 	l := len(buff)
 	localIov := getIovecs(&buff[0], l)
-	remoteIov := getIovecs((*byte)(unsafe.Pointer(addr)), l)
+	remoteIov := []remoteIovec{{base: addr, len: uintptr(l)}}
 	n, _, err := processVMReadv(pid, localIov, remoteIov, uintptr(0))
 	if err == 0 {
 		return int(n), nil
